@@ -547,8 +547,14 @@ class TransferManager(BaseManager):
         downloads, uploads = self._get_queued_transfers()
         free_upload_slots = self.get_free_upload_slots()
 
-        # Downloads will just get remotely queued
+        # Downloads will just get remotely queued. Skip the transfers for which
+        # an attempt is still in progress: the transfer only holds a single
+        # handle to the task and that handle is what gets cancelled
         for download in downloads:
+            task = download._remotely_queue_task
+            if task is not None and not task.done():
+                continue
+
             download._remotely_queue_task = asyncio.create_task(
                 self._queue_remotely(download),
                 name=f'queue-remotely-{task_counter()}'
@@ -559,6 +565,10 @@ class TransferManager(BaseManager):
 
         # Uploads should be initialized and uploaded if possible
         for upload in uploads[:free_upload_slots]:
+            task = upload._transfer_task
+            if task is not None and not task.done():
+                continue
+
             upload._transfer_task = asyncio.create_task(
                 self._initialize_upload(upload),
                 name=f'initialize-upload-{task_counter()}'
